@@ -36,6 +36,10 @@ def run(ctx, rep):
         codes(prog, rep, spec, tag)
         summaries(prog, rep, tag)
         request(prog, rep, tag)
+    if ctx.tier == "thorough":
+        from .. import witness
+
+        witness.run(ctx, rep, "C10", "C10")
 
 
 def ctors(prog, rep, tag):
